@@ -130,10 +130,27 @@ class Harness:
         self.result = {"trace": self.trace}
         self.wait_threshold = TWISTED_IDLE_EXEMPT if case["loop"] == "twisted" else 0.0
         self.in_run = False
-        self.end_timer = None
+        self.stall_timer = None
 
     # ---- injection points
+    def arm_stall(self, why):
+        """Declare the session hung unless the application sees progress (or run() ends) within a second.
+        Not immediate: some loops (trio) poll once more with a long timeout while they are shutting down."""
+        if self.stall_timer is None:
+            import threading
+
+            t = threading.Timer(1.0, self.hang, [why])
+            t.daemon = True
+            t.start()
+            self.stall_timer = t
+
+    def progress(self):
+        if self.stall_timer is not None:
+            self.stall_timer.cancel()
+            self.stall_timer = None
+
     def hit(self, kind):
+        self.progress()
         i = self.count[kind]
         self.count[kind] += 1
         if self.inject and self.injected is None and self.inject["kind"] == kind and self.inject["idx"] == i:
@@ -194,30 +211,24 @@ class Harness:
             self.mid_modes = M.modes_summary(M.decode_modes(self.out_bytes))
         if self.alarms_pending > 0:
             if timeout is None:
-                self.hang("loop blocks without a timeout while an alarm is pending")
+                self.arm_stall("loop blocks without a timeout while an alarm is pending")
             return
         if self.inflight is not None:
             self.inflight_waits += 1
             if self.inflight_waits > 50:
-                self.hang("stimulus %r fed but never delivered to the application" % (self.inflight,))
+                self.arm_stall("stimulus %r fed but never delivered to the application" % (self.inflight,))
             return
         self.feed()
 
     def feed(self):
         if self.next_step >= len(self.script):
             # some loops (trio) poll once more with a long timeout while shutting down: only a loop that is
-            # still waiting half a second after the last stimulus was consumed counts as hung
+            # still waiting a second after the last stimulus was consumed counts as hung
             self.trace.append(["wait-after-end"])
-            if not self.end_timer:
-                import threading
-
-                self.end_timer = threading.Timer(
-                    0.5, self.hang, ["script exhausted (final 'Q' already delivered) and the loop still waits"]
-                )
-                self.end_timer.daemon = True
-                self.end_timer.start()
+            self.arm_stall("script exhausted (final 'Q' already delivered) and the loop still waits")
             return
         step = self.script[self.next_step]
+        self.progress()
         self.trace.append(["feed", self.next_step])
         self.next_step += 1
         self.inflight = step
